@@ -146,7 +146,8 @@ class Worker:
         for pid in os.listdir("/proc"):
             if pid.isdigit():
                 try:
-                    if os.readlink(f"/proc/{pid}/cwd").startswith(wdir):
+                    cwd = os.readlink(f"/proc/{pid}/cwd")
+                    if cwd == wdir or cwd.startswith(wdir + "/"):
                         os.kill(int(pid), 9)
                 except OSError:
                     pass
